@@ -109,7 +109,8 @@ Definition is_hang (x : xstat) : bool := match x with XHang => true | _ => false
 (* known classes:
    10  A-37: ==, hashing of a table that contains itself recurses until the native stack overflows
    11  N-C04-1: a variable / native name whose FNV-1a hash is 0 (debug_assert in Handle::from_bytes; in release
-       builds HandleTable::entry(Handle(0)) hands out an uninitialised slot)
+       builds HandleTable::entry(Handle(0)) hands out an uninitialised slot: the program compiles with a garbage
+       variable id and SetGlobalVar then resizes the globals vector to that id - observed as a hang of `run`)
    12  N-C04-2: a card whose index path hashes to 0 (debug_assert in CardIndex::sub_handle), debug builds
    13  N-C04-3: a closure whose label handle is 0: labels.insert(Handle(0)).unwrap() panics in every build
    14  card / module nesting deeper than any loader admits (built in the worker): native stack overflow in
@@ -119,7 +120,7 @@ Definition known_of_module (m : module) (limit : N) (debug : bool) (cfg : option
   : list N :=
   let crash := is_crash (w_exit o) in
   let opts d := {| o_recursion_limit := limit; o_debug := d |} in
-  if module_any zero_name m && (crash && (w_stage o =? 2) || mismatch) then [11]
+  if module_any zero_name m && (crash || mismatch) then [11]
   else if crash && (w_stage o =? 2) && is_panic (w_exit o) && model_applies m (opts debug) then
     match compile m (opts debug), compile m (opts false) with
     | CPanic, CPanic => [13]
@@ -189,7 +190,7 @@ Definition check1 (c : c04case) : list N :=
         end
   | CText fmt size debug cfg o =>
       if negb (protocol_ok cfg o) then [3]
-      else if (fmt =? 2) && is_signal (w_exit o) then [14]
+      else if (fmt =? 2) && (is_signal (w_exit o) || is_hang (w_exit o)) then [14]
       else
         match known_of_cfg cfg o with
         | k :: _ => [k]
